@@ -17,7 +17,7 @@ CHECKS = {
    "DESIGN.md §4 C15"),
  "C18": ("hostile", "exploration",
    "differential testing: generated requests and authenticator states driven through <Authenticator as Ctap2Api> and through the direct methods on two authenticators built from the same description, in isolated worker processes (termination oracle)",
-   "For generated getInfo / makeCredential / getAssertion requests (valid and failing in every documented way), store contents, capabilities, hmac-secret configurations and user-validation behaviours, the trait call must terminate (a stack overflow or abort kills the worker and is attributed to the case) and agree with the direct call: same status byte on errors; same authenticator data, selected credential, user entity, extension outputs and a verifying signature on successes (registrations by shape, as keys and ids are random); same abstract store state, same user-validation call log and same sequence of store calls. RP IDs are also arbitrary text (0-70 characters, 1-4 byte characters) and store calls may fail with any status byte, both sides armed alike; makeCredential carries explicit hmac-secret inputs and user handles of 1-255 bytes, getAssertion per-credential PRF inputs, and the authenticators are configured with default / empty / other transport lists.",
+   "For generated getInfo / makeCredential / getAssertion requests (valid and failing in every documented way), store contents, capabilities, hmac-secret configurations and user-validation behaviours, the trait call must terminate (a stack overflow or abort kills the worker and is attributed to the case) and agree with the direct call: same status byte on errors; same authenticator data, selected credential, user entity, extension outputs and a verifying signature on successes (registrations by shape, as keys and ids are random); same abstract store state, same user-validation call log and same sequence of store calls. RP IDs are also arbitrary text (0-70 characters, 1-4 byte characters) and store calls may fail with any status byte, both sides armed alike; makeCredential carries explicit hmac-secret inputs and user handles of 1-255 bytes, getAssertion per-credential PRF inputs and reversed allow lists, the contents of every store call are compared, and the authenticators are configured with default / empty / other transport lists.",
    "two separately built but identically described authenticators stand for 'an authenticator in the same state'",
    "DESIGN.md §4 C18"),
  "C13": ("codec", "exploration",
@@ -37,7 +37,7 @@ CHECKS = {
    "DESIGN.md §4 C12"),
  "C16": ("hid", "exploration",
    "complete payload-length sweep 0..=7700 plus proptest messages through an independent packet parser and a fresh receiver (round-trip oracle); complete enumeration of all order-preserving merges of short multi-channel streams plus generated merges",
-   "Every payload length 0..=7700 (and 65535/65536/70000) is sent; the bytes written are parsed by the harness's own CTAPHID packet parser (64-byte packets, header layout, sequence numbers from 0 with bit 7 clear, zero padding, concatenation equals payload, nothing accepted above 7609) and fed to a fresh ChannelHandler (nothing before the last packet, exactly one equal message on it, orphan continuation yields nothing). For 2-4 channels all order-preserving merges of streams with up to 9 packets in total are enumerated for nine command rotations (so INIT, CANCEL ... appear on every channel position) and longer streams get generated merges: uniformly mixed ones, and skewed ones in which one channel pauses inside its message while other channels send whole messages of up to 129 packets and a further channel starts only afterwards; a third of the generated merges run on a receiver that still holds given-up transmissions on the same channels; sequences of transmissions through one receiver (with immediate repeats) must each be delivered once.",
+   "Every payload length 0..=7700 (and 65535/65536/70000) is sent; the bytes written are parsed by the harness's own CTAPHID packet parser (64-byte packets, header layout, sequence numbers from 0 with bit 7 clear, zero padding, concatenation equals payload, nothing accepted above 7609) and fed to a fresh ChannelHandler (nothing before the last packet, exactly one equal message on it, orphan continuation yields nothing). For 2-4 channels all order-preserving merges of streams with up to 9 packets in total are enumerated for nine command rotations (so INIT, CANCEL ... appear on every channel position) and longer streams get generated merges: uniformly mixed ones, and skewed ones in which one channel pauses inside its message while other channels send whole messages of up to 129 packets and a further channel starts only afterwards; a third of the generated merges run on a receiver that still holds given-up transmissions on the same channels; sequences of transmissions through one receiver (with immediate repeats) must each be delivered once; delivered messages are sent on again; stray continuation packets of idle channels yield nothing.",
    "channel id byte order accepted as either endianness but fixed within a message; refusals at or below 7609 are measured (the sender refuses exactly 7609)",
    "DESIGN.md §4 C16"),
  "C17": ("u2f", "exploration",
@@ -47,12 +47,12 @@ CHECKS = {
    "DESIGN.md §4 C17"),
  "C19": ("sched", "exploration",
    "harness-owned scheduler over hand-polled ceremonies: complete DFS over all schedules of small configurations plus proptest-generated schedules; invariant oracle over results, final store and the store event log",
-   "Two or three real authenticators share one Arc<Mutex<_>> / Arc<RwLock<_>> store (inner store suspends inside calls so guards are held across suspensions, user validation suspends too). Every decision 'poll the k-th runnable ceremony' is a choice point; all schedules of ~400 fixed configurations (all pair types x suspension counts, some triples) are enumerated by prefix replay, larger configurations get generated shrinkable schedules. Judged: no deadlock (nobody runnable while ceremonies unfinished), every successful registration's credential present at the end, same-credential assertions pairwise distinct with the largest equal to the stored value, no unexpected failures. Ceremony sets also contain an assertion that the authenticator refuses after the user prompt (PRF on a credential without secrets) next to successful ones: then the stored counter must lie between the largest reported one and start + number of assertions, and in every schedule above the start value once an assertion was answered. The store double can refuse the n-th counter update (the issuing assertion must fail) and its update only rewrites records it finds.",
+   "Two or three real authenticators share one Arc<Mutex<_>> / Arc<RwLock<_>> store (inner store suspends inside calls so guards are held across suspensions, user validation suspends too). Every decision 'poll the k-th runnable ceremony' is a choice point; all schedules of ~400 fixed configurations (all pair types x suspension counts, some triples) are enumerated by prefix replay, larger configurations get generated shrinkable schedules. Judged: no deadlock (nobody runnable while ceremonies unfinished), every successful registration's credential present at the end, same-credential assertions pairwise distinct with the largest equal to the stored value, no unexpected failures. Ceremony sets also contain an assertion that the authenticator refuses after the user prompt (PRF on a credential without secrets) next to successful ones: then the stored counter must lie between the largest reported one and start + number of assertions, and in every schedule above the start value once an assertion was answered. Ceremony kinds include silent assertions; start counters reach 2^32-4. The store double can refuse the n-th counter update (the issuing assertion must fail) and its update only rewrites records it finds.",
    "known finding D13 (overlapping lookup..update windows of two assertions on one credential) is recognised from the tagged store event log and counted; the same symptom without overlap, any deadlock and any lost credential are violations. Determinism relies on the harness owning all suspension points",
    "DESIGN.md §4 C19"),
  "C07": ("faults", "fault_enumeration",
    "fault enumeration over generated scenarios: every store call failing with each status of a set, cancellation after every number of polls, plus proptest combinations; snapshot/log invariant oracle",
-   "For each generated scenario (create / assert / U2F register with extensions, counters, lists, error-inducing options, suspending doubles) the harness first records the fault-free run, then enumerates completely (a) every fallible store call of that run failing with each of seven status bytes and (b) dropping the operation after every possible number of polls, and adds generated combinations of 2-3 faults with cancellation. Store snapshots and the store's call log decide: failed registration => store identical; cancelled registration => identical or plus exactly one complete record; success => the store accepted the save/the exact counter value first; failed/cancelled assertion => only the selected counter may have advanced by one; an injected save/update error never yields success. Histories on the shipped MemoryStore and Option slot add ceremonies that fail by themselves (refused user, excluded credential, unsupported algorithm, PRF the credential cannot serve, U2F key handles registered again or longer than 255 bytes, the selected credential removed by another party during the prompt), judged by snapshots before/after every operation.",
+   "For each generated scenario (create / assert / U2F register with extensions, counters, lists, error-inducing options, suspending doubles) the harness first records the fault-free run, then enumerates completely (a) every fallible store call of that run failing with each of seven status bytes and (b) dropping the operation after every possible number of polls, and adds generated combinations of 2-3 faults with cancellation. Store snapshots and the store's call log decide: failed registration => store identical; cancelled registration => identical or plus exactly one complete record; success => the store accepted the save/the exact counter value first; failed/cancelled assertion => only the selected counter may have advanced by one; an injected save/update error never yields success. Histories on the shipped MemoryStore and Option slot add ceremonies that fail by themselves (refused user, excluded credential, unsupported algorithm, PRF the credential cannot serve, U2F key handles registered again or longer than 255 bytes, status byte 0 also as the CTAP1 success value, the selected credential removed by another party during the prompt), judged by snapshots before/after every operation.",
    "suspension points are those reachable through the public traits (user validation, store calls), which are all the await points of these ceremonies; get_info cannot fail by its signature",
    "DESIGN.md §4 C07"),
  "C09": ("ceremony", "exploration",
@@ -62,12 +62,12 @@ CHECKS = {
    "DESIGN.md §4 C09"),
  "C04": ("consent", "exploration",
    "complete enumeration of the finite configuration product on fresh authenticators with scripted user-validation doubles; statement-derived oracle plus a metamorphic pair over store content",
-   "All ~9k combinations of operation, requested rk/up/uv (handed over as a value, or through the request's CBOR encoding with default-valued options and the emptied options map left out), verification and presence capability, user-validation outcome (4 results + 3 error codes), pin-auth, store content and exclude list are executed at the authenticator API and (reduced) through Client; success requires the reported presence/verification, UP/UV bits must equal what the double reported, every missing-consent class must fail with the store snapshot unchanged and with the same outcome whether or not a matching credential exists, and the credential shown to check_user (every time it is consulted) must be the one that signs (two matching credentials are stored; in 1 344 further configurations another party inserts a further credential in front while the user is asked; verification requests without the capability also on an authenticator that served a verified ceremony before; a store whose items convert into passkeys fallibly). The space is finite and is enumerated completely.",
+   "All ~9k combinations of operation, requested rk/up/uv (handed over as a value, or through the request's CBOR encoding with default-valued options and the emptied options map left out), verification and presence capability, user-validation outcome (4 results + 3 error codes), pin-auth, store content and exclude list are executed at the authenticator API and (reduced) through Client; success requires the reported presence/verification, UP/UV bits must equal what the double reported, every missing-consent class must fail with the store snapshot unchanged and with the same outcome whether or not a matching credential exists, and the credential shown to check_user (every time it is consulted) must be the one that signs (two matching credentials are stored; in 1 344 further configurations another party inserts a further credential in front while the user is asked; verification requests without the capability also on an authenticator that served a verified ceremony before; a store whose items convert into passkeys fallibly; the product also through the sealed trait; client assertions with ten-entry allow lists). The space is finite and is enumerated completely.",
    "doubles implement the public UserValidationMethod / CredentialStore traits; the counter setting is on so that a premature update would show in the snapshot",
    "DESIGN.md §4 C04"),
  "C05": ("stores", "exploration",
    "proptest-generated store contents and allow/exclude lists against the authenticator (model oracle) and differential contract conformance of every shipped store and lock wrapper against the reference lookup semantics",
-   "(A) generated contents over three RPs with identical user handles and every list shape (absent, empty, hits, misses, near misses, foreign-RP ids, unknown descriptor types; the reference store answers a miss with NoCredentials or Ok(empty)) drive get_assertion / make_credential on the reference store, MemoryStore, the Option slot and a lock wrapper: the credential used must belong to the RP and to a non-empty allow list and be, for an absent or empty list, the first the reference store lists; credential-excluded must occur exactly when a non-empty exclude list names a credential of the same RP, creating nothing; the store must be queried with the request's RP ID. (B) all nine shipped store/wrapper types are compared with the contract { c | c.rp_id == rp and (ids None or c.id in ids) } on generated save/update/query sequences. (C) the six lock wrappers are called while another task holds the mutex / write lock / read lock: a lookup (and through the Arc wrappers an update or a save) may wait but must then answer per the contract.",
+   "(A) generated contents over three RPs with identical user handles and every list shape (absent, empty, hits, misses, near misses, foreign-RP ids, unknown descriptor types; the reference store answers a miss with NoCredentials or Ok(empty), may fail an assertion's first lookup, and may gain or lose the named credentials during the prompt of a registration) drive get_assertion / make_credential on the reference store, MemoryStore, the Option slot and a lock wrapper: the credential used must belong to the RP and to a non-empty allow list and be, for an absent or empty list, the first the reference store lists; credential-excluded must occur exactly when a non-empty exclude list names a credential of the same RP, creating nothing; the store must be queried with the request's RP ID. (B) all nine shipped store/wrapper types are compared with the contract { c | c.rp_id == rp and (ids None or c.id in ids) } on generated save/update/query sequences. (C) the six lock wrappers are called while another task holds the mutex / write lock / read lock: a lookup (and through the Arc wrappers an update or a save) may wait but must then answer per the contract.",
    "known finding D5 (MemoryStore family ignores rp_id when ids are given) is recognised by signature and counted so the search continues; every other disagreement is a violation",
    "DESIGN.md §4 C05"),
  "C11": ("ceremony", "exploration",
@@ -87,7 +87,7 @@ CHECKS = {
    "DESIGN.md §4 C03"),
  "C08": ("ceremony", "exploration",
    "proptest-generated assertion histories against a per-credential counter model (invariant over the history)",
-   "Histories of up to 40 assertions (and some registrations, on a reference store of every capability and on the shipped stores) interleaved over up to 4 credentials with boundary start counters (0, 2^31, 2^32-1, ...) check after every step that the reported counter is previous+1, equals the stored value, that nothing else in the record changed, that counter-less credentials report 0 and are never rewritten, and that at u32::MAX nothing wraps or panics (overflow checks are on in the harness build).",
+   "Histories of up to 40 assertions (and some registrations, on a reference store of every capability and on the shipped stores) interleaved over up to 4 credentials with boundary start counters (0, 2^31, 2^32-1, ...) (the harness logs at trace level, so log arguments are evaluated; a stage removes the selected credential from a shared map during the prompt) check after every step that the reported counter is previous+1, equals the stored value, that nothing else in the record changed, that counter-less credentials report 0 and are never rewritten, and that at u32::MAX nothing wraps or panics (overflow checks are on in the harness build).",
    "the harness builds the library with overflow-checks and debug-assertions on, so wrap-around shows as a panic as well as a model mismatch",
    "DESIGN.md §4 C08"),
  "C01": ("rpid", "exploration",
